@@ -19,44 +19,79 @@ def steps():
 OPEN = """  obtain ⟨addr, ⟨r0, r1, r2, r3, r4, r5, r6, r7⟩, ir, bus, pr, pf, pi, al, lb⟩ := c
   obtain ⟨a0, a1, a2, apc, afr, asp, abus⟩ := a
   obtain ⟨hf, h0, h1, h2, h3, h4, h5, hb, hpr, hpf, hal, hlb⟩ := h
-  simp only at hf h0 h1 h2 h3 h4 h5 hb hpr hpf hal hlb hint
-  subst h0 h1 h2 h3 h4 h5 hb hpr hpf hint hlb
+  simp only at hf h0 h1 h2 h3 h4 h5 hb hpr hpf hal hlb
+  subst h0 h1 h2 h3 h4 h5 hb hpr hpf hlb
+"""
+
+NOSAMPLE = set(range(0x08, 0x10)) | set(range(0x2C, 0x30))   # EI, DI, RETI end without sampling
+
+def derive(name, endname, n, args, stmt_tail):
+    return f"""theorem {name} {args} (hint : c.pendInt = false) :
+    {stmt_tail} := by
+  obtain ⟨a', hs, he, hpi⟩ := {endname}
+  have hf := IntEntry.end_to_fetch _ _ he (by rw [hpi, hint]; simp)
+  exact ⟨a', hs, hf.1⟩
 """
 
 def lemma(op, n, split=None):
-    head = f"""set_option maxHeartbeats 4000000 in
-theorem op_{op:02X} (c : Core) (a : Arch) (h : AtFetch c a) (hop : a.bus.read a.pc = {op}#8) (hint : c.pendInt = false) :
+    args = f"(c : Core) (a : Arch) (h : AtFetch c a) (hop : a.bus.read a.pc = {op}#8)"
+    if op in NOSAMPLE:
+        head = f"""set_option maxHeartbeats 4000000 in
+theorem nos_{op:02X} {args} :
+    ∃ a', Isa.step a = some a' ∧ AtFetch (Core.iter {n} c) a' ∧ (Core.iter {n} c).pendInt = c.pendInt := by
+"""
+        main = head + OPEN + f"""  refine ⟨_, by uspec; rfl, ?_⟩
+  iterate {n} ustep
+  first
+    | (refine And.intro ?_ (by first | rfl | simp); uclose)
+    | uclose
+"""
+        d = f"""theorem op_{op:02X} {args} (hint : c.pendInt = false) :
     ∃ a', Isa.step a = some a' ∧ AtFetch (Core.iter {n} c) a' := by
+  obtain ⟨a', hs, hf, _⟩ := nos_{op:02X} c a h hop
+  exact ⟨a', hs, hf⟩
+"""
+        return main + "\n" + d
+    head = f"""set_option maxHeartbeats 4000000 in
+theorem end_{op:02X} {args} :
+    ∃ a', Isa.step a = some a' ∧ AtEnd (Core.iter {n - 1} c) a' ∧ (Core.iter {n - 1} c).pendInt = c.pendInt := by
 """
     body = f"""refine ⟨_, by uspec; rfl, ?_⟩
-  iterate {n} ustep
-  uclose
+  iterate {n - 1} ustep
+  first
+    | (refine And.intro ?_ (by first | rfl | simp); ucloseEnd)
+    | ucloseEnd
 """
     if split == "jr" and (op & 3) != 0:
-        # branch on the tested flag before stepping so that the micro-address stays a literal
-        fl = {1: ("flagC", "flagBit_C", 1), 2: ("flagZ", "flagBit_Z", 2), 3: ("flagN", "flagBit_N", 4)}[op & 3]
-        return head + OPEN + f"""  cases hF : flagBit r4 {fl[2]}
+        fl = {1: ("flagC", 1), 2: ("flagZ", 2), 3: ("flagN", 4)}[op & 3]
+        main = head + OPEN + f"""  cases hF : flagBit r4 {fl[1]}
   all_goals
     have hF' : Isa.{fl[0]} r4 = _ := hF
     refine ⟨_, by uspec; rfl, ?_⟩
-    iterate {n} ustep
-    uclose
+    iterate {n - 1} ustep
+    first
+      | (refine And.intro ?_ (by first | rfl | simp); ucloseEnd)
+      | ucloseEnd
 """
-    return head + OPEN + "  " + body
+    else:
+        main = head + OPEN + "  " + body
+    d = derive(f"op_{op:02X}", f"end_{op:02X} c a h hop", n, args,
+               f"∃ a', Isa.step a = some a' ∧ AtFetch (Core.iter {n} c) a'")
+    return main + "\n" + d
 
 OPEN2 = """  obtain ⟨addr, ⟨r0, r1, r2, r3, r4, r5, r6, r7⟩, ir, bus, pr, pf, pi, al, lb⟩ := c
   obtain ⟨a0, a1, a2, apc, afr, asp, abus⟩ := a
   obtain ⟨hf, h0, h1, h2, h3, h4, h5, h6, hb, hpr, hpf, hal, hlb⟩ := h
-  simp only at hf h0 h1 h2 h3 h4 h5 h6 hb hpr hpf hal hlb hint
-  subst hf h0 h1 h2 h3 h4 h5 h6 hb hpr hpf hint hlb
+  simp only at hf h0 h1 h2 h3 h4 h5 h6 hb hpr hpf hal hlb
+  subst hf h0 h1 h2 h3 h4 h5 h6 hb hpr hpf hlb
 """
 
 def prefix_lemma(op, n):
     # n = steps up to and including the second-opcode word
     return f"""set_option maxHeartbeats 4000000 in
-theorem pre_{op:02X} (c : Core) (a : Arch) (h : AtFetch c a) (hop : a.bus.read a.pc = {op}#8) (hint : c.pendInt = false) :
+theorem pre_{op:02X} (c : Core) (a : Arch) (h : AtFetch c a) (hop : a.bus.read a.pc = {op}#8) :
     AtSecond (Core.iter {n} c) (Isa.operand {{ a with pc := a.pc + 1 }} {(op >> 2) & 3} {op & 3}).1
-      (Isa.operand {{ a with pc := a.pc + 1 }} {(op >> 2) & 3} {op & 3}).2.1 ∧ (Core.iter {n} c).pendInt = false := by
+      (Isa.operand {{ a with pc := a.pc + 1 }} {(op >> 2) & 3} {op & 3}).2.1 ∧ (Core.iter {n} c).pendInt = c.pendInt := by
 """ + OPEN + f"""  iterate {n} ustep
   first
     | (refine And.intro ?_ (by first | rfl | simp); uclose)
@@ -64,14 +99,20 @@ theorem pre_{op:02X} (c : Core) (a : Arch) (h : AtFetch c a) (hop : a.bus.read a
 """
 
 def second_lemma(b, n):
-    return f"""set_option maxHeartbeats 4000000 in
-theorem sec_{b:02X} (c : Core) (a : Arch) (v : Byte) (h : AtSecond c a v) (hop : a.bus.read a.pc = {b}#8)
-    (hint : c.pendInt = false) :
-    ∃ a', Isa.second {{ a with pc := a.pc + 1 }} {b} v = some a' ∧ AtFetch (Core.iter {n} c) a' := by
+    args = f"(c : Core) (a : Arch) (v : Byte) (h : AtSecond c a v) (hop : a.bus.read a.pc = {b}#8)"
+    main = f"""set_option maxHeartbeats 4000000 in
+theorem send_{b:02X} {args} :
+    ∃ a', Isa.second {{ a with pc := a.pc + 1 }} {b} v = some a' ∧ AtEnd (Core.iter {n - 1} c) a' ∧
+      (Core.iter {n - 1} c).pendInt = c.pendInt := by
 """ + OPEN2 + f"""  refine ⟨_, by uspec; rfl, ?_⟩
-  iterate {n} ustep
-  uclose
+  iterate {n - 1} ustep
+  first
+    | (refine And.intro ?_ (by first | rfl | simp); ucloseEnd)
+    | ucloseEnd
 """
+    d = derive(f"sec_{b:02X}", f"send_{b:02X} c a v h hop", n, args,
+               f"∃ a', Isa.second {{ a with pc := a.pc + 1 }} {b} v = some a' ∧ AtFetch (Core.iter {n} c) a'")
+    return main + "\n" + d
 
 def main():
     d = steps()
@@ -90,15 +131,18 @@ def main():
             groups.setdefault("S%X" % (b >> 4), []).append(second_lemma(b, d["second"][b]))
     # dispatchers: one theorem per page, then one over all covered opcodes
     disp = []
+    def alt_block(var, ops, fmt):
+        alts = " ∨ ".join("%s = %d" % (var, o) for o in ops)
+        pat = " | ".join("e" for _ in ops)
+        cases = "\n".join("  · exact ⟨_, " + (fmt % o) + "⟩" for o in ops)
+        return alts, pat, cases
     pages = {}
     for op in range(0xF0):
         if d["first"][op]:
             pages.setdefault(op >> 4, []).append(op)
     for pg, ops in sorted(pages.items()):
         lo, hi = ops[0], ops[-1]
-        alts = " ∨ ".join("op = %d" % o for o in ops)
-        pat = " | ".join("e" for _ in ops)
-        cases = "\n".join("  · exact ⟨_, op_%02X c a h hop hint⟩" % o for o in ops)
+        alts, pat, cases = alt_block("op", ops, "op_%02X c a h hop hint")
         disp.append(f"""theorem page_{pg:X} (c : Core) (a : Arch) (h : AtFetch c a) (hint : c.pendInt = false) (op : Nat)
     (hr : {lo} ≤ op ∧ op ≤ {hi}) (hop : a.bus.read a.pc = BitVec.ofNat 8 op) :
     ∃ n a', Isa.step a = some a' ∧ AtFetch (Core.iter n c) a' := by
@@ -106,14 +150,30 @@ def main():
   rcases hc with {pat} <;> subst e
 {cases}
 """)
+        sops = [o for o in ops if o not in NOSAMPLE]
+        if sops:
+            alts, pat, cases = alt_block("op", sops, "end_%02X c a h hop")
+            disp.append(f"""theorem endpage_{pg:X} (c : Core) (a : Arch) (h : AtFetch c a) (op : Nat)
+    (hc : {alts}) (hop : a.bus.read a.pc = BitVec.ofNat 8 op) :
+    ∃ n a', Isa.step a = some a' ∧ AtEnd (Core.iter n c) a' ∧ (Core.iter n c).pendInt = c.pendInt := by
+  rcases hc with {pat} <;> subst e
+{cases}
+""")
+        nops = [o for o in ops if o in NOSAMPLE]
+        if nops:
+            alts, pat, cases = alt_block("op", nops, "nos_%02X c a h hop")
+            disp.append(f"""theorem nospage_{pg:X} (c : Core) (a : Arch) (h : AtFetch c a) (op : Nat)
+    (hc : {alts}) (hop : a.bus.read a.pc = BitVec.ofNat 8 op) :
+    ∃ n a', Isa.step a = some a' ∧ AtFetch (Core.iter n c) a' ∧ (Core.iter n c).pendInt = c.pendInt := by
+  rcases hc with {pat} <;> subst e
+{cases}
+""")
     ops = list(range(0xF0, 0x100))
-    alts = " ∨ ".join("op = %d" % o for o in ops)
-    pat = " | ".join("e" for _ in ops)
-    cases = "\n".join("  · exact ⟨_, pre_%02X c a h hop hint⟩" % o for o in ops)
-    disp.append(f"""theorem prefix_any (c : Core) (a : Arch) (h : AtFetch c a) (hint : c.pendInt = false) (op : Nat)
+    alts, pat, cases = alt_block("op", ops, "pre_%02X c a h hop")
+    disp.append(f"""theorem prefix_any (c : Core) (a : Arch) (h : AtFetch c a) (op : Nat)
     (hr : 240 ≤ op ∧ op ≤ 255) (hop : a.bus.read a.pc = BitVec.ofNat 8 op) :
     ∃ n, AtSecond (Core.iter n c) (Isa.operand {{ a with pc := a.pc + 1 }} (op / 4 % 4) (op % 4)).1
-      (Isa.operand {{ a with pc := a.pc + 1 }} (op / 4 % 4) (op % 4)).2.1 ∧ (Core.iter n c).pendInt = false := by
+      (Isa.operand {{ a with pc := a.pc + 1 }} (op / 4 % 4) (op % 4)).2.1 ∧ (Core.iter n c).pendInt = c.pendInt := by
   have hc : {alts} := by omega
   rcases hc with {pat} <;> subst e
 {cases}
@@ -123,12 +183,18 @@ def main():
         if d["second"][b]:
             spages.setdefault(b >> 4, []).append(b)
     for pg, ops in sorted(spages.items()):
-        alts = " ∨ ".join("b = %d" % o for o in ops)
-        pat = " | ".join("e" for _ in ops)
-        cases = "\n".join("  · exact ⟨_, sec_%02X c a v h hop hint⟩" % o for o in ops)
+        alts, pat, cases = alt_block("b", ops, "sec_%02X c a v h hop hint")
         disp.append(f"""theorem second_{pg:X} (c : Core) (a : Arch) (v : Byte) (h : AtSecond c a v) (hint : c.pendInt = false) (b : Nat)
     (hc : {alts}) (hop : a.bus.read a.pc = BitVec.ofNat 8 b) :
     ∃ n a', Isa.second {{ a with pc := a.pc + 1 }} b v = some a' ∧ AtFetch (Core.iter n c) a' := by
+  rcases hc with {pat} <;> subst e
+{cases}
+""")
+        alts, pat, cases = alt_block("b", ops, "send_%02X c a v h hop")
+        disp.append(f"""theorem sendpage_{pg:X} (c : Core) (a : Arch) (v : Byte) (h : AtSecond c a v) (b : Nat)
+    (hc : {alts}) (hop : a.bus.read a.pc = BitVec.ofNat 8 b) :
+    ∃ n a', Isa.second {{ a with pc := a.pc + 1 }} b v = some a' ∧ AtEnd (Core.iter n c) a' ∧
+      (Core.iter n c).pendInt = c.pendInt := by
   rcases hc with {pat} <;> subst e
 {cases}
 """)
@@ -139,7 +205,7 @@ def main():
         open(p, "w").write(text)
     names = []
     for g, ls in sorted(groups.items()):
-        text = "-- GENERATED by tools/gen_c01.py. DO NOT EDIT.\nimport Emu2a.Lemmas.Close\nnamespace Emu2a.C01\nopen Emu2a Gen Isa\n\n" + "\n".join(ls) + "\nend Emu2a.C01\n"
+        text = "-- GENERATED by tools/gen_c01.py. DO NOT EDIT.\nimport Emu2a.Lemmas.IntEntry\nnamespace Emu2a.C01\nopen Emu2a Gen Isa\n\n" + "\n".join(ls) + "\nend Emu2a.C01\n"
         p = os.path.join(OUTDIR, g + ".lean")
         if not os.path.exists(p) or open(p).read() != text:
             open(p, "w").write(text)
